@@ -930,6 +930,9 @@ impl<T: Transport, Env: UtpEnvironment> VirtualSocket<T, Env> {
             error.map(|e| format!("{e:#}")).unwrap_or_else(|| "none".into())
         ));
 
+        // In-order data that did not fit into the reader's queue yet must not be lost.
+        self.user_rx.flush_on_close();
+
         if let Some(e) = error {
             self.user_rx.enqueue_error(format!("{e:#}"));
         }
